@@ -52,6 +52,27 @@ package redisemu
 //@ axiom forall h uint64 :: dslot(h, 1073741824) == int(reverse32(uint32(h))>>2)
 //@ axiom forall h uint64 :: dslot(h, 2147483648) == int(reverse32(uint32(h))>>1)
 
+// Two facts about bucket numbers, proved for every admissible table size (and pair of sizes) and
+// applied by store (ghostcall) at the symbolic size it grows to:
+// keys whose hashes differ in the bits a table of n buckets looks at go to different buckets,
+//@ lemma dslotInjective(h1 uint64, h2 uint64, n int)
+//@ prop C04
+//@ fresh mm in 4..31 split
+//@ requires sized: n >= 16 && n <= (1<<31) && n&(n-1) == 0
+//@ requires n == 1<<uint(mm)
+//@ ensures inj: (h1&uint64(n-1)) != (h2&uint64(n-1)) ==> dslot(h1, n) != dslot(h2, n)
+
+// and the bucket in a smaller table is the bucket in a larger one divided by the ratio of the sizes.
+//@ lemma dslotCoarser(h uint64, n int, m int)
+//@ prop C04
+//@ fresh kk in 4..31 split
+//@ fresh mm in 4..31 split
+//@ caseonly kk <= mm
+//@ requires sized: n >= 16 && n <= (1<<31) && n&(n-1) == 0 && m >= 16 && m <= (1<<31) && m&(m-1) == 0 && n <= m
+//@ requires n == 1<<uint(kk)
+//@ requires m == 1<<uint(mm)
+//@ ensures coarser: dslot(h, m)/(m/n) == dslot(h, n)
+
 //@ pred dictFwd(rd *redisDict) = allsel(j, 0, len(rd.buckets), rd.buckets[j] == nil || (rd.buckets[j].fullHash == sip(rd.buckets[j].key) && dslot(rd.buckets[j].fullHash, len(rd.buckets)) == j && rd.vdom[rd.buckets[j].key] && rd.vval[rd.buckets[j].key] == rd.buckets[j].value))
 //@ pred dictBwd(rd *redisDict) = allstr(q, !rd.vdom[q] || (rd.buckets[dslot(sip(q), len(rd.buckets))] != nil && rd.buckets[dslot(sip(q), len(rd.buckets))].key == q))
 //@ pred dictRepr(rd *redisDict) = rd != nil && dictSized(rd) && dictFwd(rd) && dictBwd(rd)
@@ -133,9 +154,25 @@ package redisemu
 //@ modifies rd->buckets rd->count rd->dirty rd->vdom rd->vval redisDictItem alloc ghost.mutated
 //@ ghostentry if !rd.scratch : mutated = true
 //@ ghostafter "item.value = val" : rd.vval = mapset(rd.vval, key, val)
+// after growing, the bucket chosen for the new key is empty: an occupant would share the new key's
+// bucket in the old table too, so it is the item the key collided with, which the loop just separated
+//@ ghostcall "panic(" : if item != nil : dslotInjective(item.fullHash, fullHash, len(rd.buckets))
+//@ ghostcall "panic(" : if item != nil : dslotCoarser(rd.buckets[bucketNumber].fullHash, old(len(rd.buckets)), len(rd.buckets))
+//@ ghostcall "panic(" : if item != nil : dslotCoarser(fullHash, old(len(rd.buckets)), len(rd.buckets))
+// KNOWN FINDING (see known_findings.txt): nothing bounds the doubling; two keys whose hashes agree in
+// their low 31 bits drive n to 2^32 = 0
+//@ assertbefore "rd.rehash(n)" [C04] growth.bounded: n >= 32 && n <= 2147483648
+//@ assertbefore "n := uint32(len(rd.buckets))" [C04] collider.wf: item.fullHash == sip(item.key)
+//@ assertbefore "panic(" [C04] grow.a: item != nil ==> rd.buckets[bucketNumber].fullHash == sip(rd.buckets[bucketNumber].key) && dslot(rd.buckets[bucketNumber].fullHash, len(rd.buckets)) == int(bucketNumber) && rd.vdom[rd.buckets[bucketNumber].key]
+//@ assertbefore "panic(" [C04] grow.b: item != nil ==> old(rd.buckets)[dslot(sip(rd.buckets[bucketNumber].key), old(len(rd.buckets)))] != nil && old(rd.buckets)[dslot(sip(rd.buckets[bucketNumber].key), old(len(rd.buckets)))].key == rd.buckets[bucketNumber].key
+//@ assertbefore "panic(" [C04] grow.c: item != nil ==> dslot(rd.buckets[bucketNumber].fullHash, old(len(rd.buckets))) == dslot(fullHash, old(len(rd.buckets)))
+//@ assertbefore "panic(" [C04] grow.d: item != nil ==> old(rd.buckets)[dslot(fullHash, old(len(rd.buckets)))] == item
+//@ assertbefore "panic(" [C04] grow.d2: item != nil ==> item.key == rd.buckets[bucketNumber].key
+//@ assertbefore "panic(" [C04] grow.d3: item != nil ==> item.fullHash == sip(item.key)
+//@ assertbefore "panic(" [C04] grow.e: item != nil ==> rd.buckets[bucketNumber].fullHash == item.fullHash
 //@ ghostafter "rd.buckets[bucketNumber] = item" : rd.vdom = mapset(rd.vdom, key, true)
 //@ ghostafter "rd.buckets[bucketNumber] = item" : rd.vval = mapset(rd.vval, key, val)
-//@ loop 1 invariant rd.buckets == old(rd.buckets) && rd.count == old(rd.count) && rd.vdom == old(rd.vdom) && rd.vval == old(rd.vval) && rd.dirty && item == rd.buckets[bucketNumber] && item != nil
+//@ loop 1 invariant rd.buckets == old(rd.buckets) && rd.count == old(rd.count) && rd.vdom == old(rd.vdom) && rd.vval == old(rd.vval) && rd.dirty && item == rd.buckets[bucketNumber] && item != nil && item.fullHash == sip(item.key)
 //@ loop 1 invariant n == 0 || (n&(n-1) == 0 && int(n) >= len(rd.buckets))
 //@ ensures optin [C04] wf.sized: dictSized(rd)
 //@ ensures optin [C04] wf.fwd: dictFwd(rd)
